@@ -164,6 +164,99 @@ def r15_2(ctx, rep):
                        % (name, pair[0], store, store))
 
 
+UNSIGNED_TABLES = {"do_not_eliminate", "all_states", "states", "alg_states", "der_states", "inputs", "parameters", "constants"}
+
+
+@SPEC.rule(
+    "R15.3",
+    "signed names never index unsigned tables: in the alias pass, values that come from AliasRelation.aliases() or from "
+    "iterating a relation's alias sets are SIGNED names ('-x' for a negative alias); they may be tested against / used "
+    "as keys of the name tables (do_not_eliminate, all_states, states, alg_states, ...) only after the sign was "
+    "stripped (`if v[0] == '-': v = v[1:]`) or through canonical_signed(...)[0]",
+)
+def r15_3(ctx, rep):
+    R = "R15.3"
+    fn = ctx.func(MODEL, "Model._simplify_once", R)
+    blk = option_blocks(fn).get("detect_aliases")
+    if blk is None:
+        raise MechanismMissing(R, "detect_aliases block not found")
+    site = MODEL + ":Model._simplify_once"
+
+    def is_signed_source(e):
+        return isinstance(e, ast.Call) and isinstance(e.func, ast.Attribute) and e.func.attr == "aliases" and "alias_relation" in norm(e.func.value)
+
+    # signed variables: bound to aliases(...), or the second element when iterating a relation, and loop variables over them
+    signed_sets, signed_vars = set(), set()
+    changed = True
+    while changed:
+        changed = False
+        for n in ast.walk(blk):
+            if isinstance(n, ast.Assign) and isinstance(n.targets[0], ast.Name) and (is_signed_source(n.value) or (isinstance(n.value, ast.Name) and n.value.id in signed_sets)):
+                if n.targets[0].id not in signed_sets:
+                    signed_sets.add(n.targets[0].id)
+                    changed = True
+            if isinstance(n, (ast.For, ast.comprehension)):
+                it, tg = n.iter, n.target
+                if "alias_relation" in norm(it) and isinstance(tg, ast.Tuple) and len(tg.elts) == 2 and isinstance(tg.elts[1], ast.Name):
+                    if tg.elts[1].id not in signed_sets:
+                        signed_sets.add(tg.elts[1].id)
+                        changed = True
+                if isinstance(tg, ast.Name) and ((isinstance(it, ast.Name) and it.id in signed_sets) or is_signed_source(it)):
+                    if tg.id not in signed_vars:
+                        signed_vars.add(tg.id)
+                        changed = True
+    # sanitising ifs: `if v[0] == "-": ...; v = v[1:]`
+    sanitised_after = {}
+    for n in ast.walk(blk):
+        if isinstance(n, ast.If) and isinstance(n.test, ast.Compare) and isinstance(n.test.left, ast.Subscript) and isinstance(n.test.left.value, ast.Name) \
+                and isinstance(n.test.comparators[0], ast.Constant) and n.test.comparators[0].value == "-":
+            v = n.test.left.value.id
+            if any(isinstance(st, ast.Assign) and is_name(st.targets[0], v) and norm(st.value) == "%s[1:]" % v for st in n.body):
+                sanitised_after[v] = n
+    n_checked = 0
+
+    def signed_expr(e, at):
+        """does expression e evaluate to a signed name / a set of signed names at node `at`?"""
+        if is_signed_source(e):
+            return True
+        if isinstance(e, ast.Name):
+            if e.id in signed_sets:
+                return True
+            if e.id in signed_vars:
+                san = sanitised_after.get(e.id)
+                if san is not None and getattr(at, "lineno", 0) > getattr(san, "end_lineno", 0):
+                    return False
+                return True
+        if isinstance(e, ast.BinOp):
+            return signed_expr(e.left, at) or signed_expr(e.right, at)
+        return False
+
+    for n in ast.walk(blk):
+        uses = []
+        if isinstance(n, ast.Compare) and len(n.ops) == 1 and isinstance(n.ops[0], (ast.In, ast.NotIn)) and norm(n.comparators[0]) in UNSIGNED_TABLES:
+            uses.append((n.left, norm(n.comparators[0]), norm(n)))
+        elif isinstance(n, ast.Subscript) and norm(n.value) in UNSIGNED_TABLES:
+            uses.append((n.slice, norm(n.value), norm(n)))
+        elif isinstance(n, ast.Call) and isinstance(n.func, ast.Attribute) and n.func.attr in ("isdisjoint", "intersection", "issubset", "issuperset", "pop", "get") \
+                and n.args:
+            if norm(n.func.value) in UNSIGNED_TABLES:
+                uses.append((n.args[0], norm(n.func.value), norm(n)))
+            elif norm(n.args[0]) in UNSIGNED_TABLES:
+                uses.append((n.func.value, norm(n.args[0]), norm(n)))
+        elif isinstance(n, ast.BinOp) and isinstance(n.op, (ast.BitAnd, ast.Sub)) and (norm(n.left) in UNSIGNED_TABLES or norm(n.right) in UNSIGNED_TABLES):
+            other = n.right if norm(n.left) in UNSIGNED_TABLES else n.left
+            uses.append((other, norm(n.left) if norm(n.left) in UNSIGNED_TABLES else norm(n.right), norm(n)))
+        for e, table, text in uses:
+            n_checked += 1
+            bad = signed_expr(e, n)
+            if bad or n_checked <= 40:
+                rep.ob(R, site, "use `%s`" % text[:90], not bad,
+                       "`%s` may be a SIGNED alias name ('-x'); the table `%s` is keyed by plain variable names, so a negative alias is "
+                       "never found there (e.g. an algebraic variable tied to `-input` is no longer recognised as protected)" % (norm(e)[:60], table))
+    if n_checked < 8:
+        raise MechanismMissing(R, "fewer than 8 uses of the name tables found in the alias pass")
+
+
 # -- seeded variants ---------------------------------------------------------
 from ._mut import delete_stmt_where, replace_in_func, replace_stmt_where  # noqa: E402
 
@@ -254,6 +347,20 @@ def _m7(mod):
                     if isinstance(x, ast.If) and "do_not_eliminate" in norm(x.test) and any(isinstance(s, ast.Pass) for s in x.body):
                         x.body = [ast.Return(value=ast.Constant(value=True))]
                         return True
+        return False
+
+    return mod if replace_in_func(mod, "Model._simplify_once", edit) else None
+
+
+@SPEC.mutant("protection test on signed alias names", MODEL, "R15.3", "do_not_eliminate")
+def _m8(mod):
+    def edit(fn):
+        for n in ast.walk(fn):
+            if isinstance(n, ast.Compare) and isinstance(n.ops[0], ast.In) and norm(n.comparators[0]) == "do_not_eliminate" \
+                    and "canonical_signed(alg_state.name())" in norm(n.left):
+                new = ast.parse("not do_not_eliminate.isdisjoint(self.alias_relation.aliases(alg_state.name()))", mode="eval").body
+                n.left, n.ops, n.comparators = new, [ast.Is()], [ast.Constant(value=True)]
+                return True
         return False
 
     return mod if replace_in_func(mod, "Model._simplify_once", edit) else None
